@@ -743,6 +743,9 @@ func One(run *hx.Run, drv *hx.Driver, m Mode, c *Case) {
 	if strings.Contains(c.Query, "...") {
 		run.Tag("doc-has-fragments")
 	}
+	if strings.Contains(c.Query, "fragment M0 ") {
+		run.Tag("doc-has-merge-pattern")
+	}
 	if c.Reuse > 1 {
 		run.Tag("plan-reused")
 	}
